@@ -560,9 +560,13 @@ class Gen:
         k = r.choice(["outer", "spr", "spr", "spre"])
         if self.force.get("spr"):
             k = self.force["spr"][0]
+        if self.force.get("outer"):
+            k = "outer"
         if k == "outer":
             n, m = self.ext(), self.ext(); t = self.target([n, m])
-            self.emit("outer %d %d %d" % (t, self.operand([n]), self.operand([m], True)), "outer_product", [n, m], t)
+            # activity of the two vectors: active x active, passive x active, active x passive (each operand's n_active counts)
+            la, ra = self.force.get("outer") or r.choice([(None, True), (None, True), (True, False)])
+            self.emit("outer %d %d %d" % (t, self.operand([n], la), self.operand([m], ra)), "outer_product", [n, m], t)
             return
         rank = r.choice([1, 1, 2]) if k == "spr" else 1
         d = self.dims(rank, 40); sd = r.randint(0, rank); n = r.choice([1, 2, 3, 4, 5])
@@ -899,6 +903,10 @@ def sweep_cases(rng, tier="quick"):
     for k, rank in (("spr", 1), ("spr", 2), ("spre", 1)):
         for sd in range(rank + 1):
             out.append(directed(rng, "products", extents=None, spr=(k, rank, sd)))
+    # outer_product: every activity pattern of the two vectors
+    for pat in ((True, True), (False, True), (True, False)):
+        for _ in range(2):
+            D("products", extents=(2, 3, 4, 5), outer=pat)
     # reductions: function x rank (whole array, plain and of an expression), function x rank x dimension (plain and expression)
     for f in FUNS:
         for rank in (1, 2, 3):
